@@ -15,7 +15,31 @@ pub struct Run {
 }
 //!end
 
+#[verifier::external_body] pub fn run_not_found(e: std::io::Error) -> (r: MonorailError) ensures r is TrackingRunNotFound { unimplemented!() }
 impl Run {
+//!fn src/core/tracking.rs Run::open rules=R10,R12,R17 props=C13,C12
+    pub(crate) fn open(file_path: &path::Path, Tracked(w): Tracked<&mut World>) -> ⟦(res: ⟧Result<Self, MonorailError>⟦)⟧
+@        ensures
+@            // C13: consulting the run pointer (`result show`, `log show`, the next `run`) changes nothing on disk - in particular it
+@            // never publishes or repairs anything a killed run left behind
+@            final(w).fs =~= old(w).fs, // [C13]
+@            // C12: what the readers get is what the pointer file denotes
+@            res matches Ok(r) ==> old(w).fs.dom().contains(file_path@) && r.path@ == file_path@
+@                && json_parse::<Run>(old(w).fs[file_path@]) is Some && r.id == json_parse::<Run>(old(w).fs[file_path@])->Some_0.id, // [C12]
+@            // no file: "no run yet" (TrackingRunNotFound), which the callers treat as such
+@            (!old(w).fs.dom().contains(file_path@) && final(w).io_faults == old(w).io_faults) ==> res matches Err(MonorailError::TrackingRunNotFound(_)), // [C12]
+    {
+        let mut file = fs::OpenOptions::new()
+            .read(true)
+            .open(file_path, Tracked(w))
+            .map_err(run_not_found)?;
+        let mut data = vec![];
+        file.read_to_end(&mut data, Tracked(w))?;
+        let mut cp: Run = serde_json::from_slice(&data)?;
+        cp.path = file_path.to_path_buf();
+        Ok(cp)
+    }
+//!end
 //!fn src/core/tracking.rs Run::save rules=R10,R17 props=C13,C12
     pub(crate) fn save(&mut self, Tracked(w): Tracked<&mut World>) -> ⟦(res: ⟧Result<(), MonorailError>⟦)⟧
 @        requires
